@@ -3,6 +3,7 @@ import json
 import random
 
 import common
+import jsoncorr
 import corpus
 import fidelity
 import gen
@@ -22,7 +23,10 @@ META = {
              "every small script, seeded larger ones). For MessagePack the codec itself is modelled (rmp's encoder, rmp-serde's "
              "decoder; diffed against the real ones by the MessagePack correspondence) and it is proved for ALL encodable values, of "
              "any size and any depth below the limit, that the reader recovers exactly the events the writer encoded, whatever "
-             "follows them, and that no two encodings coincide or prefix one another. What the third-party codecs then make of those calls is checked on the "
+             "follows them, and that no two encodings coincide or prefix one another. JSON reading is modelled too (JsonModel.v: "
+             "grammar, integer/float classification, exact correctly rounded decimal->binary64, strings with every escape form) "
+             "and diffed against the implementation byte for byte through JSON->MessagePack on number/string spellings, rounding "
+             "halfway cases, subnormals and the overflow threshold (no theorem is claimed about the conversion itself). What the third-party codecs then make of those calls is checked on the "
              "implementation: generated documents of the common model and each pair's extensions, several spellings per value "
              "(escape forms, quoting and block styles, whitespace, exponent forms, non-minimal MessagePack widths), all 16 format "
              "pairs, slice and reader, explicit and detected source, output read back with an independent reader (Python json, "
@@ -139,6 +143,7 @@ def run(outcome, tier, seed):
                                                       "bound": "17 visit methods x width-boundary payloads at top level, in a seq and as map key/value; "
                                                                "every script up to max_nodes; seeded random scripts to depth 5"}
         shared.msgpack_correspondence(outcome, tier, seed, oracle=False)
+    jsoncorr.correspondence(outcome, tier, seed)
     run_fidelity(outcome, tier, seed)
     run_known(outcome)
     listed = {k["id"] for k in common.load_known("C01")}
